@@ -166,7 +166,7 @@ def key_names(rng, n):
         if rng.random() < 0.01:
             k = k + "L" * rng.randrange(100, 600)
         out.add(k)
-    keys = list(out)
+    keys = sorted(out)                 # (set order depends on PYTHONHASHSEED: replay by seed needs a fixed order)
     rng.shuffle(keys)
     return keys
 
